@@ -73,11 +73,17 @@ def compile_files(files):
         for n, t in files.items():
             with open(os.path.join(d, n), 'w', encoding='utf-8') as f:
                 f.write(t)
+        comp = MalCompiler()
         try:
-            r = MalCompiler().compile(os.path.join(d, 'main.mal'))
+            r = comp.compile(os.path.join(d, 'main.mal'))
             return False, r
         except Exception as e:
-            return True, e
+            # a rejected compilation must stay rejected when the same compiler object is asked again
+            try:
+                r2 = comp.compile(os.path.join(d, 'main.mal'))
+            except Exception:
+                return True, e
+            return False, r2
     finally:
         shutil.rmtree(d, ignore_errors=True)
 
